@@ -38,6 +38,10 @@ func c15(c *Ctx) {
 	if c.poolTypestate("C15.deflater-exclusive", "(*flateWriteWrapper).Close") < 1 {
 		r.Fail("C15.deflater-exclusive", "(*flateWriteWrapper).Close", "pool-put-site", c.fn("(*flateWriteWrapper).Close").Pos(), "no Put of the deflater found")
 	}
+	r.Rule("C15.inflater-exclusive", "a decompressor returned to its pool is forgotten in the same step and a closed wrapper stays closed, so two connections never inflate through one flate reader (same rule as C03.inflater-exclusive)")
+	if c.poolTypestate("C15.inflater-exclusive", "(*flateReadWrapper).Close", "(*flateReadWrapper).Read") < 1 {
+		r.Fail("C15.inflater-exclusive", "(*flateReadWrapper).Close", "pool-put-site", c.fn("(*flateReadWrapper).Close").Pos(), "no Put of the inflater found")
+	}
 	r.Rule("C15.level-range", "Conn.compressionLevel is assigned only the default constant or a value that passed isValidCompressionLevel, whose bounds equal the index range of flateWriterPools; compressNoContextTakeover indexes the pools with level - minCompressionLevel")
 	r.Table("PreparedMessage.frame's private Conn sets only newCompressionWriter (it never reads): reviewed exception to C15.paired")
 
